@@ -676,7 +676,36 @@ theorem accept_snd_congr (a b : Scan) (cands : List Char) (hi : a.input = b.inpu
   simp only [hi, hp]
   split <;> (split <;> rfl)
 
-theorem prog_lexInitial (cfg : ScanCfg) (s : Scan) : Prog s (lexInitial cfg s) := by
+/-- post-condition of `lex_initial`: returning with `pos` unchanged means nothing was emitted *and* the input is exhausted -/
+def ProgI (s : Scan) (r : SR) : Prop :=
+  match r with
+  | .ok s' => Le s s' ∧ (s'.pos = s.pos → s'.toks.size = s.toks.size ∧ ¬ s'.pos < s'.input.size)
+  | .error (e, _) => e ≠ .outOfFuel
+
+theorem Strict.progI {s : Scan} {r : SR} (h : Strict s r) : ProgI s r := by
+  unfold Strict at h; unfold ProgI
+  split
+  · rename_i s' ; simp only at h; exact ⟨h.1, fun e => by omega⟩
+  · simpa using h
+
+theorem ProgI.prog {s : Scan} {r : SR} (h : ProgI s r) : Prog s r := by
+  unfold ProgI at h; unfold Prog
+  split
+  · rename_i s'; simp only at h; exact ⟨h.1, fun e => (h.2 e).1⟩
+  · simpa using h
+
+theorem ProgI.of_le_same {s sA : Scan} {r : SR} (hle : Le s sA) (ht : sA.toks = s.toks) (h : ProgI sA r) : ProgI s r := by
+  unfold ProgI at h ⊢
+  split
+  · rename_i s' ; simp only at h
+    refine ⟨hle.trans h.1, fun e => ?_⟩
+    have h1 := hle.pos
+    have h2 := h.1.pos
+    have : s'.pos = sA.pos := by omega
+    exact ⟨by rw [(h.2 this).1, ht], (h.2 this).2⟩
+  · simpa using h
+
+theorem progI_lexInitial (cfg : ScanCfg) (s : Scan) : ProgI s (lexInitial cfg s) := by
   unfold lexInitial
   simp only []
   have hig := good_ignoreRun s [' ', '\t', '\n'] he_ws
@@ -687,17 +716,17 @@ theorem prog_lexInitial (cfg : ScanCfg) (s : Scan) : Prog s (lexInitial cfg s) :
     have hA : Le s t := hig
     have hAt : t.toks = s.toks := ignoreRun_toks s t _ hr
     rw [ok_bind]
-    apply Prog.of_le_same hA hAt
+    apply ProgI.of_le_same hA hAt
     by_cases ha : (t.accept [';']).snd = true
     · rw [if_pos ha]
-      apply Strict.prog
+      apply Strict.progI
       apply Strict.of_lt (le_accept t _ false) (accept_lt t _ (by decide) ha)
       apply Good.bind (good_lineComment _ _ (by have := (le_accept t [';'] false).pos; rw [(le_accept t [';'] false).input]; omega))
       intro s2 _; exact Good.pure (le_emit s2 _)
     rw [if_neg ha]; clear ha
     by_cases ha : (t.accept digitChars).snd = true
     · rw [if_pos ha]
-      apply Strict.prog
+      apply Strict.progI
       apply Strict.of_lt (le_accept t _ false) (accept_lt t _ nul_digit ha)
       apply good_lexNumber
       have := accept_true_lt t digitChars nul_digit ha
@@ -705,36 +734,36 @@ theorem prog_lexInitial (cfg : ScanCfg) (s : Scan) : Prog s (lexInitial cfg s) :
     rw [if_neg ha]; clear ha
     by_cases ha : (t.accept ['+', '-', '&']).snd = true
     · rw [if_pos ha]
-      exact (strict_acc t _ (by decide) ha _).prog
+      exact (strict_acc t _ (by decide) ha _).progI
     rw [if_neg ha]; clear ha
     by_cases ha : (t.acceptPrefix ['=', '=']).snd = true
     · rw [if_pos ha]
-      exact (strict_pre t _ (by decide) ha _).prog
+      exact (strict_pre t _ (by decide) ha _).progI
     rw [if_neg ha]; clear ha
     by_cases ha : (t.acceptPrefix ['!', '=']).snd = true
     · rw [if_pos ha]
-      exact (strict_pre t _ (by decide) ha _).prog
+      exact (strict_pre t _ (by decide) ha _).progI
     rw [if_neg ha]; clear ha
     by_cases ha : (t.acceptPrefix ['>', '>']).snd = true
     · rw [if_pos ha]
-      exact (strict_pre t _ (by decide) ha _).prog
+      exact (strict_pre t _ (by decide) ha _).progI
     rw [if_neg ha]; clear ha
     by_cases ha : (t.acceptPrefix ['<', '<']).snd = true
     · rw [if_pos ha]
-      exact (strict_pre t _ (by decide) ha _).prog
+      exact (strict_pre t _ (by decide) ha _).progI
     rw [if_neg ha]; clear ha
     by_cases ha : (t.acceptPrefix ['>']).snd = true
     · rw [if_pos ha]
-      exact (strict_pre t _ (by decide) ha _).prog
+      exact (strict_pre t _ (by decide) ha _).progI
     rw [if_neg ha]; clear ha
     by_cases ha : (t.acceptPrefix ['<']).snd = true
     · rw [if_pos ha]
-      exact (strict_pre t _ (by decide) ha _).prog
+      exact (strict_pre t _ (by decide) ha _).progI
     rw [if_neg ha]; clear ha
     by_cases ha : (t.accept letterChars).snd = true
     · rw [if_pos ha]
       obtain ⟨hb, hbp, hbi⟩ := accept_backup_le t letterChars nul_letter ha
-      apply Strict.prog
+      apply Strict.progI
       split
       · rename_i hop
         obtain ⟨ho1, ho2⟩ := acceptOpcode_le cfg (t.accept letterChars).1.backup
@@ -749,61 +778,61 @@ theorem prog_lexInitial (cfg : ScanCfg) (s : Scan) : Prog s (lexInitial cfg s) :
     rw [if_neg ha]; clear ha
     by_cases ha : (t.accept ['.']).snd = true
     · rw [if_pos ha]
-      apply Strict.prog
+      apply Strict.progI
       exact Strict.of_lt (le_accept t _ false) (accept_lt t _ (by decide) ha) (good_lexKeyword cfg _)
     rw [if_neg ha]; clear ha
     by_cases ha : (t.accept [',']).snd = true
     · rw [if_pos ha]
-      exact (strict_acc t _ (by decide) ha _).prog
+      exact (strict_acc t _ (by decide) ha _).progI
     rw [if_neg ha]; clear ha
     by_cases ha : (t.acceptPrefix [':', '=']).snd = true
     · rw [if_pos ha]
-      exact (strict_pre t _ (by decide) ha _).prog
+      exact (strict_pre t _ (by decide) ha _).progI
     rw [if_neg ha]; clear ha
     by_cases ha : (t.acceptPrefix ['@', '=']).snd = true
     · rw [if_pos ha]
-      exact (strict_pre t _ (by decide) ha _).prog
+      exact (strict_pre t _ (by decide) ha _).progI
     rw [if_neg ha]; clear ha
     by_cases ha : (t.accept ['*']).snd = true
     · rw [if_pos ha]
-      exact (strict_acc2 t _ _ (by decide) ha _ _).prog
+      exact (strict_acc2 t _ _ (by decide) ha _ _).progI
     rw [if_neg ha]; clear ha
     by_cases ha : (t.accept ['\'']).snd = true
     · rw [if_pos ha]
-      apply Strict.prog
+      apply Strict.progI
       exact Strict.of_lt (le_accept t _ false) (accept_lt t _ (by decide) ha) (good_lexQuotedString _)
     rw [if_neg ha]; clear ha
     by_cases ha : (t.accept ['(']).snd = true
     · rw [if_pos ha]
-      exact (strict_acc t _ (by decide) ha _).prog
+      exact (strict_acc t _ (by decide) ha _).progI
     rw [if_neg ha]; clear ha
     by_cases ha : (t.accept [')']).snd = true
     · rw [if_pos ha]
-      exact (strict_acc t _ (by decide) ha _).prog
+      exact (strict_acc t _ (by decide) ha _).progI
     rw [if_neg ha]; clear ha
     by_cases ha : (t.accept ['[']).snd = true
     · rw [if_pos ha]
-      exact (strict_acc t _ (by decide) ha _).prog
+      exact (strict_acc t _ (by decide) ha _).progI
     rw [if_neg ha]; clear ha
     by_cases ha : (t.accept [']']).snd = true
     · rw [if_pos ha]
-      exact (strict_acc t _ (by decide) ha _).prog
+      exact (strict_acc t _ (by decide) ha _).progI
     rw [if_neg ha]; clear ha
     by_cases ha : (t.accept ['{']).snd = true
     · rw [if_pos ha]
-      exact (strict_acc2 t _ _ (by decide) ha _ _).prog
+      exact (strict_acc2 t _ _ (by decide) ha _ _).progI
     rw [if_neg ha]; clear ha
     by_cases ha : (t.accept ['}']).snd = true
     · rw [if_pos ha]
-      exact (strict_acc2 t _ _ (by decide) ha _ _).prog
+      exact (strict_acc2 t _ _ (by decide) ha _ _).progI
     rw [if_neg ha]; clear ha
     by_cases ha : (t.accept ['=']).snd = true
     · rw [if_pos ha]
-      exact (strict_acc t _ (by decide) ha _).prog
+      exact (strict_acc t _ (by decide) ha _).progI
     rw [if_neg ha]; clear ha
     by_cases ha : (t.acceptPrefix ['/', '*']).snd = true
     · rw [if_pos ha]
-      apply Strict.prog
+      apply Strict.progI
       apply Strict.of_lt (le_acceptPrefix t _) (acceptPrefix_lt t _ (by decide) ha)
       apply Good.bind (good_blockComment _ (by simp [Scan.err]) _ _ (by have := (le_acceptPrefix t ['/', '*']).pos; rw [(le_acceptPrefix t ['/', '*']).input]; omega))
       intro s2 _; exact Good.pure (le_emit s2 _)
@@ -816,9 +845,11 @@ theorem prog_lexInitial (cfg : ScanCfg) (s : Scan) : Prog s (lexInitial cfg s) :
         | none => rfl
         | some c => rw [hx] at hn; simp at hn
       have hge := (next_some_iff t).mp hnone
-      show Prog t (pure (t.next).1)
+      show ProgI t (pure (t.next).1)
       rw [(next_pos_ge t hge).1]
-      exact ⟨Le.refl t, fun _ => rfl⟩
+      exact ⟨Le.refl t, fun _ => ⟨rfl, hge⟩⟩
+
+theorem prog_lexInitial (cfg : ScanCfg) (s : Scan) : Prog s (lexInitial cfg s) := (progI_lexInitial cfg s).prog
 
 theorem prog_runState (cfg : ScanCfg) (st : ScanState) (s : Scan) : Prog s (runState cfg st s) := by
   cases st with
